@@ -881,4 +881,287 @@ example : (exec (fixedCfg (fun k => if k = 1 then [.nestedRun, .next 0] else [])
     [.submit 1 1, .loopStart 0 true, .passBegin, .passWake, .execFront, .act, .act]).map
     (fun s => (idsOf s.nextQ, s.phase)) = some ([3], .wake) := by decide
 
+/-! ### round 8: cancel of the running task / of the id issued next, the queries isRunning() / isInLoopThread() -/
+
+theorem removeId_of_not_has (q : List Task) (id : Nat) (h : hasId q id = false) : removeId q id = q := by
+  simp only [removeId, List.filter_eq_self, bne_iff_ne, ne_eq]
+  intro t ht he
+  have : hasId q id = true := by
+    simp only [hasId, List.any_eq_true, beq_iff_eq]; exact ⟨t, ht, he⟩
+  rw [h] at this; cases this
+
+/-- a `cancel` that answers false changes nothing but the (ghost) log -/
+theorem cancel_of_ret_false (s : State) (id : Nat) (h : cancelRet s id = false) :
+    cancel s id = { s with log := .cancel id false :: s.log } := by
+  simp only [cancel, h]
+  simp only [cancelRet] at h
+  by_cases h0 : id = 0
+  · simp [h0]
+  · simp only [h0, if_false] at h ⊢
+    by_cases ht : hasId s.tmpQ id = true
+    · simp [ht] at h
+    · simp only [ht] at h ⊢
+      by_cases hodd : id % 2 = 1
+      · simp only [hodd, if_true] at h ⊢
+        rw [removeId_of_not_has _ _ h]; rfl
+      · simp only [hodd, if_false] at h ⊢
+        rw [removeId_of_not_has _ _ h]; rfl
+
+theorem cancelRet_false_of_absent (s : State) (id : Nat) (ht : id ∉ idsOf s.tmpQ) (hn : id ∉ idsOf s.nextQ)
+    (hi : id ∉ idsOf s.inLoopQ) : cancelRet s id = false := by
+  have a : hasId s.tmpQ id = false := by
+    cases h : hasId s.tmpQ id with | false => rfl | true => exact absurd ((hasId_iff _ _).1 h) ht
+  have b : hasId s.nextQ id = false := by
+    cases h : hasId s.nextQ id with | false => rfl | true => exact absurd ((hasId_iff _ _).1 h) hn
+  have c : hasId s.inLoopQ id = false := by
+    cases h : hasId s.inLoopQ id with | false => rfl | true => exact absurd ((hasId_iff _ _).1 h) hi
+  by_cases h0 : id = 0 <;> simp [cancelRet, a, b, c, h0]
+
+
+theorem doAct_executed (cfg : Cfg) (s : State) (tid : Nat) (a : Act) : (doAct cfg s tid a).executed = s.executed := by
+  cases a with
+  | inLoop k => exact (submitInLoop_frame s tid (cfg.prog k)).2.2.2.2.2.2.2.2.2.2.2.2.1
+  | next k => simp [doAct, submitNext, noteNext]
+  | cancel id => simp only [doAct, cancel]; split <;> (try split) <;> (try split) <;> rfl
+  | exit => simp only [doAct]; exact (dropExitTimer_frame s tid).2.2.2.2.1
+  | exitLater w => simp only [doAct]; exact (dropExitTimer_frame s tid).2.2.2.2.1
+  | throw => rfl
+  | run k =>
+    simp only [doAct]; split
+    · exact (submitInLoop_frame s tid (cfg.prog k)).2.2.2.2.2.2.2.2.2.2.2.2.1
+    · simp [submitNext, noteNext]
+  | nestedRun => rfl
+
+/-- the set of executed ids only grows -/
+theorem step_executed_mono (cfg : Cfg) (s : State) (st : Step) (id : Nat) (h : id ∈ s.executed) :
+    id ∈ (step cfg s st).executed := by
+  cases st with
+  | submit t k => simp only [step]; rw [(submitInLoop_frame s t (cfg.prog k)).2.2.2.2.2.2.2.2.2.2.2.2.1]; exact h
+  | idleAct t a => simp only [step, doAct_executed]; exact h
+  | cbAct a => simp only [step, doAct_executed]; exact h
+  | submitRun t k => simp only [step, doAct_executed]; exact h
+  | loopStart t f =>
+    simp only [step]; split
+    · simpa using h
+    · rw [(commit_frame _).2.2.2.2.2.2.2.2.2.2.2.2.1]; simpa using h
+  | execFront => simp only [step]; split <;> simp [h]
+  | drainExec => simp only [step]; split <;> simp [h]
+  | act =>
+    simp only [step]; split
+    · rw [doAct_executed]; exact h
+    · exact h
+  | passEnd => simp only [step]; split <;> exact h
+  | drainEnd =>
+    simp only [step]; split
+    · split
+      · exact h
+      · split
+        · simp only []; rw [(dropExitTimer_frame s s.loopTid).2.2.2.2.1]; exact h
+        · exact h
+    · exact h
+  | fault f => cases f <;> exact h
+  | passBegin => exact h
+  | timerExit => exact h
+  | passWake => exact h
+  | passSkip => exact h
+  | passNext => exact h
+  | drainGen => exact h
+  | destroy t => exact h
+  | tick d => exact h
+  | passBreak => exact h
+  | cleanup t => exact h
+  | setWL a b => exact h
+
+theorem exec_executed_mono (cfg : Cfg) (sts : List Step) (s s' : State) (he : exec cfg s sts = some s') (id : Nat)
+    (h : id ∈ s.executed) : id ∈ s'.executed := by
+  induction sts generalizing s with
+  | nil => simp only [exec, Option.some.injEq] at he; subst he; exact h
+  | cons x l ih =>
+    simp only [exec] at he
+    split at he
+    · exact ih _ he (step_executed_mono cfg s x id h)
+    · cases he
+
+theorem exec_append (cfg : Cfg) (l l' : List Step) (a b c : State) (h : exec cfg a l = some b) (h' : exec cfg b l' = some c) :
+    exec cfg a (l ++ l') = some c := by
+  induction l generalizing a with
+  | nil => simp only [exec, Option.some.injEq] at h; subst h; simpa using h'
+  | cons x l ih =>
+    simp only [exec, List.cons_append] at h ⊢
+    split at h
+    · rename_i hx; simp only [hx, if_true]; exact ih _ h
+    · cases h
+
+/-- **a task that has been (or is being) invoked cannot be cancelled any more**, at every point of every execution:
+`cancel(id)` answers false and changes nothing — no queue, no batch, no counter, only the ghost log. -/
+theorem C01_cancel_after_exec_false (cfg : Cfg) (sts : List Step) (s : State) (he : exec cfg init sts = some s) (id : Nat)
+    (hx : id ∈ s.executed) :
+    cancelRet s id = false ∧ cancel s id = { s with log := .cancel id false :: s.log } := by
+  have h := exactly_once_core cfg sts s he id
+  have hp : 0 < s.executed.count id := List.count_pos_iff.2 hx
+  have hr : cancelRet s id = false := by
+    refine cancelRet_false_of_absent s id ?_ ?_ ?_ <;>
+    · intro hm; have := List.count_pos_iff.2 hm; split at h <;> omega
+  exact ⟨hr, cancel_of_ret_false s id hr⟩
+
+/-- **cancel of the task currently executing, from inside itself** (lesson of seeded C01-8), for the batch of the
+eventfd callback (`phase = wake`: runInLoop tasks), the runNext batch (`phase = next`) and the shutdown drain:
+the code pops the task BEFORE it invokes it (`auto item = front(); pop_front();`), so when the callable — at any
+point `sts'` later of its own script or of anything that follows — asks to cancel its own id, the answer is false,
+nothing changes but the log, and in particular the follower `rest` is still the batch: it is neither removed nor
+skipped (`tmpQ = rest` right after the pop, untouched by the cancel). -/
+theorem C01_cancel_self_while_running (cfg : Cfg) (sts : List Step) (s : State) (he : exec cfg init sts = some s)
+    (t : Task) (rest : List Task) (hq : s.tmpQ = t :: rest) (hv : valid s .execFront = true)
+    (s1 : State) (h1 : s1 = step cfg s .execFront)
+    (sts' : List Step) (s' : State) (he' : exec cfg s1 sts' = some s') :
+    s1.tmpQ = rest ∧ s1.cur = t.body ∧ s1.executed = t.id :: s.executed ∧
+    cancelRet s1 t.id = false ∧ cancel s1 t.id = { s1 with log := .cancel t.id false :: s1.log } ∧
+    (cancel s1 t.id).tmpQ = rest ∧
+    cancelRet s' t.id = false ∧ cancel s' t.id = { s' with log := .cancel t.id false :: s'.log } := by
+  have e1 : exec cfg init (sts ++ [.execFront]) = some s1 :=
+    exec_append cfg sts [.execFront] init s _ he (by simp [exec, hv, h1])
+  have hs : s1 = { s with tmpQ := rest, cur := t.body, executed := (t.id :: s.executed), log := (Ev.exec t.id s.loopTid :: s.log) } := by
+    simp [h1, step, hq]
+  have hmem : t.id ∈ s1.executed := by rw [hs]; simp
+  have c1 := C01_cancel_after_exec_false cfg _ _ e1 t.id hmem
+  have e2 := exec_append cfg _ sts' init _ s' e1 he'
+  have c2 := C01_cancel_after_exec_false cfg _ _ e2 t.id (exec_executed_mono cfg sts' _ s' he' t.id hmem)
+  refine ⟨by rw [hs], by rw [hs], by rw [hs], c1.1, c1.2, ?_, c2.1, c2.2⟩
+  rw [c1.2, hs]
+
+/-- the same in the shutdown drain (loop exit, destructor, `cleanup()`): the running task of the local batch is not
+cancellable either (the local deques are invisible to `cancel`), the rest of the generation `rest` stays -/
+theorem C01_cancel_self_in_drain (cfg : Cfg) (sts : List Step) (s : State) (he : exec cfg init sts = some s)
+    (t : Task) (rest : List Task) (hq : s.dQ = t :: rest) (hv : valid s .drainExec = true)
+    (s1 : State) (h1 : s1 = step cfg s .drainExec)
+    (sts' : List Step) (s' : State) (he' : exec cfg s1 sts' = some s') :
+    s1.dQ = rest ∧ cancelRet s1 t.id = false ∧ (cancel s1 t.id).dQ = rest ∧
+    cancelRet s' t.id = false ∧ cancel s' t.id = { s' with log := .cancel t.id false :: s'.log } := by
+  have e1 : exec cfg init (sts ++ [.drainExec]) = some s1 :=
+    exec_append cfg sts [.drainExec] init s _ he (by simp [exec, hv, h1])
+  have hs : s1 = { s with dQ := rest, cur := t.body, executed := (t.id :: s.executed), log := (Ev.exec t.id s.loopTid :: s.log) } := by
+    simp [h1, step, hq]
+  have hmem : t.id ∈ s1.executed := by rw [hs]; simp
+  have c1 := C01_cancel_after_exec_false cfg _ _ e1 t.id hmem
+  have e2 := exec_append cfg _ sts' init _ s' e1 he'
+  have c2 := C01_cancel_after_exec_false cfg _ _ e2 t.id (exec_executed_mono cfg sts' _ s' he' t.id hmem)
+  refine ⟨by rw [hs], c1.1, ?_, c2.1, c2.2⟩
+  rw [c1.2, hs]
+
+/-- **cancel of the id that will be issued next** (state-derived input: the allocators are cached state): at every
+point of every execution `cancel(run_in_loop_id_alloc_ + 2)` and `cancel(run_next_id_alloc_ + 2)` answer false and
+change nothing, and the submission that follows gets exactly that id and is queued — an early cancel does not
+pre-empt a task that does not exist yet. -/
+theorem C01_cancel_next_id (cfg : Cfg) (sts : List Step) (s : State) (he : exec cfg init sts = some s) (tid : Nat)
+    (body : List Act) :
+    cancelRet s (s.inAlloc + 2) = false ∧ cancelRet s (s.nextAlloc + 2) = false ∧
+    cancel s (s.inAlloc + 2) = { s with log := .cancel (s.inAlloc + 2) false :: s.log } ∧
+    cancel s (s.nextAlloc + 2) = { s with log := .cancel (s.nextAlloc + 2) false :: s.log } ∧
+    (submitInLoop (cancel s (s.inAlloc + 2)) tid body).inLoopQ = s.inLoopQ ++ [{ id := s.inAlloc + 2, owner := tid, body := body }] ∧
+    (submitNext (cancel s (s.nextAlloc + 2)) tid body).nextQ = s.nextQ ++ [{ id := s.nextAlloc + 2, owner := tid, body := body }] := by
+  have hi := exec_inv cfg init sts init_inv s he
+  have hpar := hi.allocPar
+  have absent : ∀ id, ¬ accepted s id → cancelRet s id = false := by
+    intro id hna
+    have h := exactly_once_core cfg sts s he id
+    simp only [hna, if_false] at h
+    refine cancelRet_false_of_absent s id ?_ ?_ ?_ <;>
+    · intro hm; have := List.count_pos_iff.2 hm; omega
+  have r1 : cancelRet s (s.inAlloc + 2) = false := absent _ (by unfold accepted; omega)
+  have r2 : cancelRet s (s.nextAlloc + 2) = false := absent _ (by unfold accepted; omega)
+  refine ⟨r1, r2, cancel_of_ret_false s _ r1, cancel_of_ret_false s _ r2, ?_, ?_⟩
+  · rw [cancel_of_ret_false s _ r1]; exact (submitInLoop_frame _ tid body).1
+  · rw [cancel_of_ret_false s _ r2]; simp [submitNext, noteNext]
+
+/-- **`isRunning()`** is true exactly between runThisBeforeLoop and the end of runThisAfterLoop: while the loop thread
+polls, runs callbacks and batches, and during the drain of loop exit — and false while idle (before the first run,
+between runs), during a destructor / `cleanup()` drain and after destruction. -/
+theorem C01_isRunning (cfg : Cfg) (sts : List Step) (s : State) (he : exec cfg init sts = some s) :
+    (isRunning s = true ↔ (s.phase = .poll ∨ s.phase = .pre ∨ s.phase = .wake ∨ s.phase = .next ∨
+      (s.phase = .drain ∧ s.destroying = false))) ∧
+    ((s.phase = .idle ∨ s.phase = .dead ∨ (s.phase = .drain ∧ s.destroying = true)) → isRunning s = false) := by
+  have hi := exec_inv cfg init sts init_inv s he
+  refine ⟨hi.fdRun, ?_⟩
+  intro hp
+  cases hr : isRunning s with
+  | false => rfl
+  | true =>
+    have := hi.fdRun.1 hr
+    rcases hp with h | h | ⟨h, hd⟩ <;> simp [h] at this
+    rw [hd] at this; cases this
+
+/-- **`isInLoopThread()`** asked by thread `tid`: true iff the loop is running and `tid` is the thread that entered
+runLoop() (the last `start` event of the history).  Hence: every callable of a pass batch or of the loop-exit drain
+runs on a thread for which it answers true (`s.loopTid`, the thread of the `exec` event), it answers false to every
+other thread, and to EVERY thread — the draining one included — while the loop is not running (idle, destructor or
+`cleanup()` drain: loop_thread_id_ is cleared). -/
+theorem C01_isInLoopThread (cfg : Cfg) (sts : List Step) (s : State) (he : exec cfg init sts = some s) (tid : Nat) :
+    (inLoopThread s tid = true ↔ isRunning s = true ∧ tid = s.loopTid) ∧
+    (inLoopThread s tid = true → lastDriver s.log = some tid) ∧
+    (valid s .execFront = true → inLoopThread s s.loopTid = true) ∧
+    (isRunning s = false → inLoopThread s tid = false) := by
+  have hi := exec_inv cfg init sts init_inv s he
+  refine ⟨by simp [inLoopThread, isRunning], ?_, ?_, ?_⟩
+  · intro h
+    simp only [inLoopThread, Bool.and_eq_true, beq_iff_eq] at h
+    have hp := hi.fdRun.1 h.1
+    rw [h.2]
+    refine hi.driver ?_
+    rcases hp with h | h | h | h | ⟨h, _⟩ <;> simp [h]
+  · intro hv
+    simp only [valid, Bool.and_eq_true, Bool.or_eq_true, beq_iff_eq] at hv
+    have : s.efd.isSome = true := hi.fdRun.2 (by rcases hv.1.1 with h | h <;> simp [h])
+    simp [inLoopThread, this]
+  · intro h; simp only [isRunning] at h; simp [inLoopThread, h]
+
+/-- `run()` decides with exactly these two queries (`isRunningLockless() && !isInLoopThreadLockless()`) -/
+theorem C01_run_uses_queries (cfg : Cfg) (s : State) (tid k : Nat) :
+    doAct cfg s tid (.run k) = if isRunning s && !inLoopThread s tid then submitInLoop s tid (cfg.prog k)
+                               else submitNext s tid (cfg.prog k) := by
+  have hb : ∀ (x y : Bool), (x && !y) = (x && !(x && y)) := by decide
+  simp only [doAct, isRunning, inLoopThread, bne, ← hb]
+
+/-! non-vacuity of the round-8 theorems -/
+/-- `C01_cancel_self_while_running`: batch [2, 4] of runInLoop tasks, task 2 cancels itself (answer false), task 4 runs;
+then the runNext batch [3, 5]: task 3 cancels itself, 5 runs; task 5 is the LAST of its batch and cancels itself too -/
+def selfProg : Nat → List Act
+  | 1 => [.cancel 2, .next 3, .next 4]
+  | 3 => [.cancel 3]
+  | 4 => [.cancel 5]
+  | _ => []
+example : (exec (fixedCfg selfProg) init
+    [.submit 1 1, .submit 1 0, .loopStart 0 true, .passBegin, .passWake, .execFront, .act, .act, .act, .execFront, .passNext,
+     .execFront, .act, .execFront, .act, .passEnd]).map (fun s => (s.executed, s.cancelled, s.log.filter (fun e => e matches .cancel _ _))) =
+    some ([5, 3, 4, 2], [], [.cancel 5 false, .cancel 3 false, .cancel 2 false]) := by decide
+/-- `C01_cancel_next_id` / `C01_isRunning` / `C01_isInLoopThread`: while polling the loop is running, thread 0 is the loop thread -/
+example : (exec (fixedCfg selfProg) init [.submit 1 0, .idleAct 0 (.cancel 4), .submit 1 0, .loopStart 0 true]).map
+    (fun s => (idsOf s.inLoopQ, isRunning s, inLoopThread s 0, inLoopThread s 1)) = some ([2, 4], true, true, false) := by decide
+example : (exec (fixedCfg selfProg) init [.submit 1 0, .destroy 3, .drainGen, .drainExec]).map
+    (fun s => (isRunning s, inLoopThread s 3, s.executed)) = some (false, false, [2]) := by decide
+
+/-! ### round 8 (3): `exitLoop()` from a thread other than the loop thread — what is assumed, and why it is outside the statement
+
+`CommonLoop::exitLoop(wait)` (common_loop_timer.cpp) and the engines' `stopLoop()` take no lock and wake nobody:
+  * `stopLoop()` is the plain store `keep_running_ = false` (a `bool`, not atomic), read by the loop thread in
+    `while (keep_running_)`: from a foreign thread that is a C++ data race, and even when the store is seen the loop thread
+    may sit in epoll_wait/select with timeout -1 and never re-evaluate the condition — the call has no effect until some
+    other event wakes the poll;
+  * `exitLoop(wait)` and the head of `exitLoop()` (`sp_exit_timer_->disable()`, delete, `newTimerEvent`, `enable()`) edit the
+    timer heap, the timer cabinet and `sp_exit_timer_` — loop-thread-only structures — and `disable()` of an armed timer calls
+    `run()`, which from a foreign thread goes through `runInLoop` (that part is safe).
+The model therefore has NO step "exitLoop by a thread that is not inside a loop-thread step while the loop runs":
+`Act.exit` / `Act.exitLater` are reachable only through `Step.act` / `Step.cbAct` (loop thread) and `Step.idleAct` (owner,
+loop not running; `valid` demands `phase = idle`).  ASSUMPTION (plugin `ASSUMPTIONS`): applications stop a running loop from
+another thread with `runInLoop([loop]{ loop->exitLoop(); })`, which IS modelled (an ordinary cross-thread submission whose
+script is `[.exit]`; `C01_wakeup_served` gives that it is served) and is what the free-running stress does under TSan.
+Why outside C01: the statement speaks about callables "handed to an event loop for deferred execution" through
+runInLoop / runNext / run and about their cancellation; its thread-safety clause is "concurrent SUBMISSION from several threads
+is free of data races and never loses a wake-up".  `exitLoop` is not a submission entry point, loop.h documents no thread-safety
+for it, and what a racy `keep_running_` store could change — WHEN the loop stops — does not affect any clause: whenever the
+loop thread does leave the `while`, `C01_drained_on_exit` / `C01_pending_at_exit_run` hold from that state on (they are proved
+for every state with `keepRunning = false`, however it got there: `Step.timerExit`, a callback, a callable).  So the assumption
+removes a source of undefined behaviour, not a case of the property.  (A direct cross-thread `exitLoop()` is NOT exercised by the
+harness: `keep_running_` is a plain `bool` member of both engines, so such a run would be a data race by the letter of the C++
+memory model — a finding about `exitLoop`, not about C01; this round did not run it under TSan.) -/
+
 end Tbox.C01
